@@ -12,7 +12,9 @@ mean_point(points) and the caches are filled before the problem is handed to the
 closest[i].scalar_projection(moved[i]) (2D), dist / |scalar_projection| by DistMode (3D), and jacobian() branches on the same
 mode with the matching helper, row i from pair i; under termination.was_successful() the result is
 Alignment::new(transform of the MINIMISED problem, residuals of the MINIMISED problem), otherwise Err; (ENC) Alignment's fields
-are private and never written after construction."""
+are private and never written after construction.
+params() returns the stored parameter vector that set_params wrote (2D and 3D); from_initial goes through RotationMatrices::from_rotation =
+from_euler(to_wpr(to_matrix(q))) on every path (rule shared with C08)."""
 NOT_DECIDED = "convergence, basin of attraction, that the final residual sum is not larger than at the start, optimality"
 ASSUMPTIONS = ["levenberg_marquardt::minimize returns the problem in the state of its last set_params"]
 
